@@ -1,6 +1,7 @@
 import RootSim.Model.LP
 import RootSim.Model.GenModel
 import RootSim.Model.Serial
+import RootSim.Model.Place
 import Driver.Util
 /-!
 Driver modes `serial` and `par`: re-execution of a real ROOT-Sim run on the Lean models.
@@ -22,6 +23,7 @@ structure MsgRec where
   queued : Nat := 0
   freed  : Bool := false
   known  : Bool := false   -- content bound (send / init seen)
+  mseq   : Nat := 0        -- `m_seq` of a message received from another rank
 
 /-- events the model expects next from a thread (in order) -/
 inductive Exp where
@@ -40,6 +42,11 @@ inductive Exp where
   | termrb (lp t : Nat)       -- termination_on_lp_rollback(lp, t)
   | termproc (lp t : Nat)     -- termination_on_msg_process(lp, t) when it gets past its early return
   | vote (tq : Nat)
+  | rsend (lp : Nat) (e : Event)   -- ScheduleNewEvent to an LP hosted by another rank
+  | antir (m : Nat)                 -- mpi_remote_anti_msg_send for a remote-sent entry being undone
+  | fgvt (m : Nat)                  -- msg_allocator_free_at_gvt of the sender's copy
+  | early (m : Nat)                 -- remote anti-message that arrived before its event
+  | ematch (m a : Nat)              -- remote event annihilated by a waiting early anti-message
 
 /-- `SIMTIME_MAX` as a time key (what the harness prints for it) -/
 def tMax : Nat := 2 ^ 62
@@ -55,6 +62,7 @@ structure Thread where
   exp : List Exp := []
   lastAlloc : Nat := 0
   cur : Nat := 0        -- message being processed
+  atGvt : Array Nat := #[]   -- `at_gvt_list` of mm/msg_allocator.c
 
 structure Sys where
   P : Params := ⟨0, 1, 1, 1, 0, 0, false, false, false, 0⟩
@@ -70,6 +78,11 @@ structure Sys where
   allocs : Nat := 0
   frees : Nat := 0
   tterm : Nat := 0
+  /-- number of MPI ranks and this rank (rank mode); 1/0 otherwise -/
+  nNodes : Nat := 1
+  nid : Nat := 0
+  /-- `lp->p.early_antis` per LP: newest first -/
+  earlyAntis : Array (List Nat) := #[]
   /-- `lp->termination_t` per LP (`tNone` = -1.0 = predicate not true; `tMax` = true since init) -/
   termT : Array Nat := #[]
 
@@ -92,6 +105,10 @@ def hx (x : UInt64) : String := toHex x.toNat
 def renderSend (m from_ : Nat) (e : Event) : String :=
   s!"send {m} from={from_} dest={e.dest} tq={e.t} type={e.type} size={e.payload.length} pl={hx (payloadDigest e.payload)}"
 
+/-- `lid_to_nid(lp) != nid` -/
+def Sys.isRemote (s : Sys) (lp : Nat) : Bool :=
+  s.nNodes > 1 && RootSim.Place.lidToNid s.P.nLps s.nNodes lp != s.nid
+
 def hnd (s : Sys) (lp : Nat) : GState → Event → GState × List Event := handler s.P lp
 
 /-- queue re-insertion bookkeeping -/
@@ -105,7 +122,10 @@ def doRollback (s : Sys) (lp pastI : Nat) : Sys × List Exp :=
     let antis := o.undone.map (fun e => match e with
       | .past m => Exp.unproc m
       | .sent m => Exp.antil m
-      | .rsent m => Exp.antil m)
+      | .rsent m => Exp.antir m)
+    let antis := antis.flatMap (fun e => match e with
+      | .antir m => [e, Exp.fgvt m]
+      | _ => [e])
     (s.setLp lp o.lp,
      antis ++ [.rb lp pastI o.ref] ++ o.silent.map (fun (i, m) => Exp.silent lp i m) ++ [.rbdone lp pastI (digest o.lp.st)])
 
@@ -142,7 +162,7 @@ def applyExp (s : Sys) (r : Nat) (e : Exp) (arg : Nat) : Sys × String :=
     if (s.mrec m).freed then (s, s!"double-free {m}")
     else ({ (s.setRec m { s.mrec m with freed := true }) with frees := s.frees + 1 }, s!"free {m}")
   | .ffree lp m i tag => (s, s!"ffree lp={lp} m={if tag = 1 then 0 else m} idx={i} tag={tag}")
-  | .fdone lp n ok => (s, s!"fdone lp={lp} n={n} c03={if ok then "ok" else "MISMATCH"}")
+  | .fdone lp n ok => (s, s!"fdone lp={lp} n={n} c03={if s.nNodes > 1 then "-" else if ok then "ok" else "MISMATCH"}")
   | .termrb lp t =>
     -- termination_on_lp_rollback: keep = old_t < msg_time || old_t == SIMTIME_MAX
     let old := s.termT.getD lp tNone
@@ -161,6 +181,16 @@ def applyExp (s : Sys) (r : Nat) (e : Exp) (arg : Nat) : Sys × String :=
     let s := { s with termT := s.termT.set! lp newT }
     let s := s.setTh r { th with lpsToEnd := lte, maxT := if term then max t th.maxT else th.maxT }
     (s, s!"termproc lp={lp} t={newT} lte={lte}")
+  | .rsend lp ev =>
+    let s := s.setRec arg { ev := ev, flags := 0, queued := 0, known := true }
+    let l := s.lp lp
+    (s.setLp lp { l with hist := l.hist ++ [.rsent arg] }, renderSend arg lp ev |>.replace "send " "rsend ")
+  | .antir m => (s, s!"antir {m}")
+  | .fgvt m =>
+    let th := s.th r
+    (s.setTh r { th with atGvt := th.atGvt.push m }, s!"fgvt {m}")
+  | .early m => (s, s!"early {m}")
+  | .ematch m a => (s, s!"ematch {m} {a}")
   | .vote tq =>
     let th := s.th r
     (s.setTh r { th with maxT := tMax }, s!"vote {r} tq={tq} lte={th.lpsToEnd}")
@@ -170,6 +200,7 @@ def expKind : Exp → String
   | .rb .. => "rb" | .silent .. => "silent" | .rbdone .. => "rbdone" | .fwd .. => "fwd"
   | .antid .. => "antid" | .free .. => "free" | .ffree .. => "ffree" | .fdone .. => "fdone"
   | .termrb .. => "termrb" | .termproc .. => "termproc" | .vote .. => "vote"
+  | .rsend .. => "rsend" | .antir .. => "antir" | .fgvt .. => "fgvt" | .early .. => "early" | .ematch .. => "ematch"
 
 /-- consume the head of the thread's expectation list for a line of kind `kind` -/
 def consume (s : Sys) (r : Nat) (kind : String) (arg : Nat) : Sys × String :=
@@ -186,7 +217,31 @@ def consume (s : Sys) (r : Nat) (kind : String) (arg : Nat) : Sys × String :=
 def onExtract (s : Sys) (r m f : Nat) : Sys :=
   let lpI := (s.ev m).dest
   let t := s.th r
-  if f % 2 = 1 then
+  if f % 2 = 1 && f > 3 then
+    -- remote anti-message (`handle_remote_anti_msg`): after `raw_flags -= MSG_FLAG_ANTI` its word is f + 1, which is
+    -- exactly the word of the matching event once that has been processed (id + PROCESSED); match on (word, m_seq)
+    let mId := f + 1
+    let seq := (s.mrec m).mseq
+    let l := s.lp lpI
+    let k := scanBack (fun e => e.isPast && (s.mrec e.msg).flags == mId && (s.mrec e.msg).mseq == seq) l.hist.reverse
+    if k = 0 then
+      -- early remote anti-message: parked on the LP's list (its word is now f + 1)
+      let s := s.setRec m { s.mrec m with flags := mId }
+      let s := { s with earlyAntis := s.earlyAntis.set! lpI (m :: s.earlyAntis.getD lpI []) }
+      let l := s.lp lpI
+      let s := s.setLp lpI { l with bound := if l.hist.isEmpty then none else l.bound }
+      s.setTh r { t with exp := [.early m] }
+    else
+      let i := k - 1
+      let x := (l.hist.getD i (.past 0)).msg
+      let pastI := scanBack Entry.isPast (l.hist.take i).reverse
+      -- msg->raw_flags |= MSG_FLAG_ANTI
+      let s := s.setRec x { s.mrec x with flags := (s.mrec x).flags + 1 }
+      let (s, evs) := doRollback s lpI pastI
+      let l := s.lp lpI
+      let s := s.setLp lpI { l with bound := if l.hist.isEmpty then none else l.bound }
+      s.setTh r { (s.th r) with exp := evs ++ [.termrb lpI (s.ev x).t, .free x, .free m] }
+  else if f % 2 = 1 then
     -- anti-message
     if f = 3 then
       match matchAnti (s.lp lpI).hist m with
@@ -201,6 +256,14 @@ def onExtract (s : Sys) (r m f : Nat) : Sys :=
       let s := s.setLp lpI { l with bound := if l.hist.isEmpty then none else l.bound }
       s.setTh r { t with exp := [.antid m f, .free m] }
   else
+    -- a remote event may already have been cancelled by an early anti-message (`check_early_anti_messages`)
+    let early := s.earlyAntis.getD lpI []
+    let hit := if f != 0 then early.find? (fun a => (s.mrec a).flags == f + 2 && (s.mrec a).mseq == (s.mrec m).mseq) else none
+    match hit with
+    | some a =>
+      let s := { s with earlyAntis := s.earlyAntis.set! lpI (early.erase a) }
+      s.setTh r { t with exp := [.ematch m a, .free m, .free a] }
+    | none =>
     let l := s.lp lpI
     let me := s.look m
     let me := { me with rawFlags := f + 2 }
@@ -216,7 +279,8 @@ def onExtract (s : Sys) (r m f : Nat) : Sys :=
     let s := s.setLp lpI { l with st := st', bound := some (s.ev m).t }
     -- termination_on_msg_process returns early when termination_t != 0; whether it does is decided when the
     -- rollback's own termination update (if any) has been applied, i.e. at `fwd` time
-    s.setTh r { (s.th r) with exp := evs ++ outs.map (fun e => Exp.send lpI e) ++ [.fwd m lpI] }
+    s.setTh r { (s.th r) with exp := evs ++ outs.map (fun e => if s.isRemote e.dest then Exp.rsend lpI e else Exp.send lpI e)
+                                  ++ [.fwd m lpI] }
 
 def insertSorted (e : Event) : List Event → List Event
   | [] => [e]
@@ -294,7 +358,11 @@ def parStep (s : Sys) (toks : List String) : Sys × String :=
   | "model" :: seed :: lps :: types :: fan :: thr :: spread :: rng :: mem :: t0 :: threads :: _ckpt :: tterm :: skew =>
     let P : Params := ⟨UInt64.ofNat (nat! seed), nat! lps, nat! types, nat! fan, nat! thr, nat! spread,
       nat! rng != 0, nat! mem != 0, nat! t0 != 0, nat! (skew.headD "0")⟩
-    ({ s with P := P, tterm := nat! tterm, lps := Array.replicate (nat! lps) { st := {} },
+    let nNodes := match skew with | [_, n, _] => nat! n | _ => 1
+    let nid := match skew with | [_, _, i] => nat! i | _ => 0
+    ({ s with P := P, tterm := nat! tterm, nNodes := nNodes, nid := nid,
+              earlyAntis := Array.replicate (nat! lps) [],
+              lps := Array.replicate (nat! lps) { st := {} },
               ths := Array.replicate (nat! threads) {},
               rng0 := Array.replicate (nat! lps) ⟨0, 0, 0, 0⟩,
               termT := Array.replicate (nat! lps) tNone,
@@ -316,7 +384,8 @@ def parStep (s : Sys) (toks : List String) : Sys × String :=
     let s := { s with rng0 := s.rng0.set! lp rng }
     let (st', outs) := hnd s lp { rng := rng } initEv
     let s := s.setLp lp { st := st', bound := some 0 }
-    (s.setTh r { t with exp := outs.map (fun e => Exp.send lp e) ++ [.initPush lp m] }, s!"init lp={lp}")
+    (s.setTh r { t with exp := outs.map (fun e => if s.isRemote e.dest then Exp.rsend lp e else Exp.send lp e)
+                            ++ [.initPush lp m] }, s!"init lp={lp}")
   | ["send", r, o, _] => consume s (nat! r) "send" (nat! o)
   | ["ckpt", r, lp, _] =>
     let r := nat! r; let lp := nat! lp
@@ -351,6 +420,20 @@ def parStep (s : Sys) (toks : List String) : Sys × String :=
   | ["silent", r, _, _, _] => consume s (nat! r) "silent" 0
   | ["rbdone", r, _, _] => consume s (nat! r) "rbdone" 0
   | ["fwd", r, m, _, _] => consume s (nat! r) "fwd" (nat! m)
+  | ["rsend", r, o, _] => consume s (nat! r) "rsend" (nat! o)
+  | ["antir", r, m] => consume s (nat! r) "antir" (nat! m)
+  | ["fgvt", r, m] => consume s (nat! r) "fgvt" (nat! m)
+  | ["early", r, m] => consume s (nat! r) "early" (nat! m)
+  | ["ematch", r, m, _] => consume s (nat! r) "ematch" (nat! m)
+  | ["rrecv", _, o, dest, tq, ty, _sz, id, seq, pl] =>
+    -- an event received from another rank: content, id word and sequence number are inputs
+    let o := nat! o
+    let ev : Event := { dest := nat! dest, t := nat! tq, type := nat! ty, payload := parseHexBytes pl }
+    (s.setRec o { ev := ev, flags := nat! id, queued := 1, known := true, mseq := nat! seq }, s!"rrecv {o}")
+  | ["rrecva", _, o, dest, tq, id, seq] =>
+    let o := nat! o
+    let ev : Event := { dest := nat! dest, t := nat! tq, type := 0, payload := [] }
+    (s.setRec o { ev := ev, flags := nat! id, queued := 1, known := true, mseq := nat! seq }, s!"rrecva {o}")
   | ["termrb", r, _] => consume s (nat! r) "termrb" 0
   | ["termproc", r, _] => consume s (nat! r) "termproc" 0
   | ["terminit", r, lp] =>
@@ -378,14 +461,22 @@ def parStep (s : Sys) (toks : List String) : Sys × String :=
     let termTime := if s.tterm = 0 then tMax else s.tterm
     let noVote := (t.lpsToEnd != 0 || decide (t.maxT ≥ tq)) && decide (tq < termTime)
     let exp := if noVote then t.exp else t.exp ++ [.vote tq]
-    (s.setTh r { t with epoch := t.epoch + 1, gvt := tq, exp := exp }, s!"gvt {r} tq={tq}")
+    -- msg_allocator_on_gvt: for(i = count; i-- > 0;) if(dest_t < gvt) { free; list[i] = list[--count]; }
+    let (lst, frees) := (List.range t.atGvt.size).reverse.foldl (fun (acc : Array Nat × List Exp) i =>
+      let (lst, fr) := acc
+      let m := lst.getD i 0
+      if (s.ev m).t < tq then
+        let last := lst.getD (lst.size - 1) 0
+        ((lst.set! i last).pop, fr ++ [Exp.free m])
+      else (lst, fr)) (t.atGvt, [])
+    (s.setTh r { t with epoch := t.epoch + 1, gvt := tq, exp := exp ++ frees, atGvt := lst }, s!"gvt {r} tq={tq}")
   | ["vote", r, _, _] => consume s (nat! r) "vote" 0
   | ["stage", r, n] => (s, s!"stage {r} {n}")
   | ["finilp", _, lp] =>
     let lp := nat! lp
     let l := s.lp lp
     let s := s.withSeq
-    let sq := if s.tterm ≠ 0 then "-" else match s.seq with
+    let sq := if s.tterm ≠ 0 ∨ s.nNodes > 1 then "-" else match s.seq with
       | some (_, sts) => hx (digest (sts.getD lp {}))
       | none => "?"
     (s, s!"finilp lp={lp} st={hx (digest l.st)} cnt={l.st.cnt.toNat} seq={sq}")
@@ -407,7 +498,8 @@ def parStep (s : Sys) (toks : List String) : Sys × String :=
           if (s.ev m).t < t.gvt then
             let c0 := s.committed.getD lp 0
             let ok := s.prefixOk lp c0 [m]
-            ({ s with committed := s.committed.set! lp (c0 + 1) }, if ok then " c03=ok" else " c03=MISMATCH")
+            ({ s with committed := s.committed.set! lp (c0 + 1) },
+             if s.nNodes > 1 then "" else if ok then " c03=ok" else " c03=MISMATCH")
           else (s, "")
         | _ => (s, "")
       (s, s!"fini lp={lp} m={if e.tag = 1 then 0 else e.msg} idx={idx} tag={e.tag}{c03}")
